@@ -77,6 +77,9 @@ class _Gen:
             return self.var()
         if r < 10:
             return str(self.pick([0, 1, 2, 3]))
+        if r == 10 and self.f["rich_exprs"] and self.i(0, 3) == 0:
+            # a multi-line literal with a whitespace-only line and indented lines (source-level whitespace handling)
+            return "\"\"\"s\n    \n  t\n\"\"\""
         if r == 10:
             return self.pick(["None", "True", "False", "'s'"] + (["'__scfg_sentinel__'"] if self.f["shadow_builtins"] else []))
         return f"d({self.tag()})"
